@@ -70,6 +70,9 @@ pub struct CommonContext {
     pub include_paths: Rc<RefCell<BTreeSet<PathBuf>>>,
     // count of files which are read for this build
     pub included_files: Rc<Cell<usize>>,
+    // count of messages which were issued before every call of macro: messages of
+    // the macro are issued when it is expanded, after parsing, and go to that place
+    pub messages_before_calls: Rc<RefCell<Vec<usize>>>,
 }
 
 impl CommonContext {
@@ -84,6 +87,7 @@ impl CommonContext {
             device: Rc::new(RefCell::new(Some(Device::new(0)))),
             include_paths: Rc::new(RefCell::new(BTreeSet::new())),
             included_files: Rc::new(Cell::new(0)),
+            messages_before_calls: Rc::new(RefCell::new(vec![])),
         }
     }
 }
